@@ -30,6 +30,7 @@ structure ObeyCore (inp : Input) (s : Sys) : Prop where
   utdS : ∀ d, stOf s d = .utd → Ev.skipUtd d ∈ s.events
   runS : ∀ d, stOf s d = .run → Ev.start d ∈ s.events
   obey : obeyOK (nodeDeps s) inp.noAct s.events = true
+  utd : utdOK inp.utd s.events = true
 
 theorem obeyOK_congr (deps deps' : Name → List Name) (na : Name → Bool) :
     ∀ ev : List Ev, (∀ t, Ev.start t ∈ ev → deps t = deps' t) → obeyOK deps na ev = obeyOK deps' na ev := by
@@ -65,6 +66,7 @@ theorem ObeyCore.congr {inp : Input} {s s' : Sys} (h : ObeyCore inp s) (h3 : s'.
   · intro d hd; rw [stOf_congr h4] at hd; rw [h3]; exact h.utdS d hd
   · intro d hd; rw [stOf_congr h4] at hd; rw [h3]; exact h.runS d hd
   · rw [nodeDeps_congr h4, h3]; exact h.obey
+  · rw [h3]; exact h.utd
 
 /-- replace node `n` by `x`: same status, same task object, `x` satisfies the node-local obligations -/
 theorem core_setNode {inp : Input} {s : Sys} {n : Name} {nd x : Node} (h : ObeyCore inp s)
@@ -88,6 +90,7 @@ theorem core_setNode {inp : Input} {s : Sys} {n : Name} {nd x : Node} (h : ObeyC
   · intro d hd'; rw [hs] at hd'; exact h.utdS d hd'
   · intro d hd'; rw [hs] at hd'; exact h.runS d hd'
   · rw [hd]; exact h.obey
+  · exact h.utd
 
 /-- a new node, or a node that was not selected yet is reset to another task object: the dependency table changes
     only for a task that has no `start` in the trace -/
@@ -115,6 +118,7 @@ theorem core_retask {inp : Input} {s : Sys} {n : Name} {x : Node} (h : ObeyCore 
       by_cases htn : t = n
       · subst htn; exact absurd rfl (hc.fresh t hs0 _ ht)
       · simp [nodeDeps, setNode, htn]
+  · exact h.utd
 
 theorem NodeG.st_none {good : Name → Bool} {nd : Node} (h : NodeG good nd) (hpc : nd.pc ≠ .done) :
     nd.status = .none := by
@@ -172,6 +176,7 @@ theorem core_registerWaiting {inp : Input} {s : Sys} (n : Name) (wf : List Name)
   · intro d hd'; rw [hs] at hd'; exact h.utdS d hd'
   · intro d hd'; rw [hs] at hd'; exact h.runS d hd'
   · rw [hd]; exact h.obey
+  · exact h.utd
 
 theorem core_genStep {inp : Input} {s : Sys} {n : Name} {nd : Node} (h : ObeyCore inp s)
     (hc : CountOK (stOf s) s.events) (hn : s.nodes n = some nd)
